@@ -211,14 +211,18 @@ fn show(b: &[u8]) -> String {
 fn explore(source: PipeSpec, only: Option<ReplaySpec>, index: u64, tier: Tier, want_sample: bool) -> RunReport {
     let mut r = RunReport::default();
     let mut first: Option<Violation> = None;
-    let mk = |class: &str, detail: String, cmd: Option<Cmd>, fault: Option<Fault>, bufcap: Option<usize>, flags: Option<CreateFlags>| Violation {
-        property: "C17".into(),
-        class: class.into(),
-        detail,
-        spec: serde_json::to_value(&ReplaySpec { source: source.clone(), cmd, fault, bufcap, create_flags: flags }).unwrap(),
-        engine: "cli-sim".into(),
-        index,
-        event_log_digest: 0,
+    let mk = |class: &str, detail: String, cmd: Option<Cmd>, fault: Option<Fault>, bufcap: Option<usize>, flags: Option<CreateFlags>| {
+        // the "event log" of a CLI run is the command line, the fault and the exit status class
+        let digest = seed::fnv64(format!("{class}|{cmd:?}|{fault:?}|{flags:?}").as_bytes());
+        Violation {
+            property: "C17".into(),
+            class: class.into(),
+            detail,
+            spec: serde_json::to_value(&ReplaySpec { source: source.clone(), cmd, fault, bufcap, create_flags: flags }).unwrap(),
+            engine: "cli-sim".into(),
+            index,
+            event_log_digest: digest,
+        }
     };
     let mut rr = Rng::new(seed::fnv64(serde_json::to_string(&source.gen).unwrap().as_bytes()) ^ 0xC17);
 
